@@ -33,6 +33,8 @@ pub struct Cfg {
     pub per_contact_latency: Vec<u64>,
     /// from the instant a contact goes silent, sending to it fails (host / port unreachable)
     pub unreachable_when_silent: bool,
+    /// two announcing searches (different info-hashes) requested in the same millisecond at this instant
+    pub announce_burst_at: Option<u64>,
     pub rng_seed: u64,
 }
 
@@ -108,6 +110,14 @@ pub fn build(cfg: &Cfg) -> (Scenario, Vec<Box<dyn Peer>>) {
             sc.actions.push((When::At(t), Action::Search { node: 0, info_hash: InfoHash::sha1(format!("c11-{j}").as_bytes()), announce: j % 2 == 0, tag: format!("search{j}") }));
             t += every;
             j += 1;
+        }
+    }
+    if let Some(t) = cfg.announce_burst_at {
+        for j in 0..2 {
+            // info-hashes next to contact 0's id: it is among the 8 closest of both searches and gets both announces
+            let mut h = c_id(0);
+            h[19] ^= 1 + j as u8;
+            sc.actions.push((When::At(t), Action::Search { node: 0, info_hash: InfoHash::from(h), announce: true, tag: format!("burst{j}") }));
         }
     }
     if cfg.unreachable_when_silent {
@@ -212,7 +222,7 @@ pub fn judge(cfg: &Cfg, res: &RunResult) -> Vec<(String, String)> {
 }
 
 fn cfg_json(c: &Cfg) -> Value {
-    json!({"contacts": c.contacts.iter().map(|x| json!({"silent_at":x.silent_at,"hearsay":x.hearsay,"leaf":x.leaf})).collect::<Vec<_>>(), "well_connected": c.well_connected, "search_every_ms": c.search_every_ms, "forget_after_ms": c.forget_after_ms, "minutes": c.minutes, "latency": c.latency, "per_contact_latency": c.per_contact_latency, "unreachable_when_silent": c.unreachable_when_silent, "rng_seed": c.rng_seed})
+    json!({"contacts": c.contacts.iter().map(|x| json!({"silent_at":x.silent_at,"hearsay":x.hearsay,"leaf":x.leaf})).collect::<Vec<_>>(), "well_connected": c.well_connected, "search_every_ms": c.search_every_ms, "forget_after_ms": c.forget_after_ms, "minutes": c.minutes, "latency": c.latency, "per_contact_latency": c.per_contact_latency, "unreachable_when_silent": c.unreachable_when_silent, "announce_burst_at": c.announce_burst_at, "rng_seed": c.rng_seed})
 }
 fn cfg_parse(v: &Value) -> Cfg {
     Cfg {
@@ -224,6 +234,7 @@ fn cfg_parse(v: &Value) -> Cfg {
         latency: v["latency"].as_u64().unwrap_or(20),
         per_contact_latency: v["per_contact_latency"].as_array().map(|a| a.iter().map(|x| x.as_u64().unwrap()).collect()).unwrap_or_default(),
         unreachable_when_silent: v["unreachable_when_silent"].as_bool().unwrap_or(false),
+        announce_burst_at: v["announce_burst_at"].as_u64(),
         rng_seed: v["rng_seed"].as_u64().unwrap_or(1),
     }
 }
@@ -266,7 +277,7 @@ pub fn configs(tier: Tier, seed: u64) -> Vec<Cfg> {
                         }
                         let contacts: Vec<Contact> = (0..k).map(|i| Contact { leaf: false, silent_at: if mask & (1 << i) != 0 { Some(t) } else { None }, hearsay: false }).collect();
                         // everybody silent from the start in the single-contact regime never bootstraps: fine, nothing listed
-                        out.push(Cfg { contacts, well_connected, search_every_ms: search, forget_after_ms: forget, minutes, latency: 20, per_contact_latency: vec![], unreachable_when_silent: false, rng_seed: seed });
+                        out.push(Cfg { contacts, well_connected, search_every_ms: search, forget_after_ms: forget, minutes, latency: 20, per_contact_latency: vec![], unreachable_when_silent: false, announce_burst_at: None, rng_seed: seed });
                     }
                 }
             }
@@ -284,6 +295,7 @@ pub fn configs(tier: Tier, seed: u64) -> Vec<Cfg> {
                 latency: 20,
                 per_contact_latency: vec![],
                 unreachable_when_silent: false,
+                announce_burst_at: None,
                 rng_seed: seed,
             });
         }
@@ -296,14 +308,14 @@ pub fn configs(tier: Tier, seed: u64) -> Vec<Cfg> {
             contacts.push(Contact { leaf: true, silent_at: None, hearsay: true });
             let mut c2 = contacts.clone();
             c2.last_mut().unwrap().hearsay = false;
-            out.push(Cfg { contacts: c2, well_connected, search_every_ms: None, forget_after_ms: 0, minutes, latency: 20, per_contact_latency: vec![], unreachable_when_silent: false, rng_seed: seed });
-            out.push(Cfg { contacts, well_connected, search_every_ms: None, forget_after_ms: 0, minutes, latency: 20, per_contact_latency: vec![], unreachable_when_silent: false, rng_seed: seed });
+            out.push(Cfg { contacts: c2, well_connected, search_every_ms: None, forget_after_ms: 0, minutes, latency: 20, per_contact_latency: vec![], unreachable_when_silent: false, announce_burst_at: None, rng_seed: seed });
+            out.push(Cfg { contacts, well_connected, search_every_ms: None, forget_after_ms: 0, minutes, latency: 20, per_contact_latency: vec![], unreachable_when_silent: false, announce_burst_at: None, rng_seed: seed });
         }
     }
     // latencies (round trips stay below the shortest per-query timeout)
     for latency in [1u64, 200] {
         for well_connected in [false, true] {
-            out.push(Cfg { contacts: vec![Contact { leaf: false, silent_at: None, hearsay: false }, Contact { leaf: false, silent_at: Some(840_000), hearsay: false }], well_connected, search_every_ms: Some(600_000), forget_after_ms: 0, minutes, latency, per_contact_latency: vec![], unreachable_when_silent: false, rng_seed: seed });
+            out.push(Cfg { contacts: vec![Contact { leaf: false, silent_at: None, hearsay: false }, Contact { leaf: false, silent_at: Some(840_000), hearsay: false }], well_connected, search_every_ms: Some(600_000), forget_after_ms: 0, minutes, latency, per_contact_latency: vec![], unreachable_when_silent: false, announce_burst_at: None, rng_seed: seed });
         }
     }
     // every assignment of link latencies {1,20,200} ms to two contacts (one of them going silent at 14 min)
@@ -311,8 +323,17 @@ pub fn configs(tier: Tier, seed: u64) -> Vec<Cfg> {
         for l1 in [1u64, 20, 200] {
             for (s0, s1) in [(None, Some(840_000u64)), (Some(840_000u64), None), (None, None)] {
                 for well_connected in [false, true] {
-                    out.push(Cfg { contacts: vec![Contact { leaf: false, silent_at: s0, hearsay: false }, Contact { leaf: false, silent_at: s1, hearsay: false }], well_connected, search_every_ms: None, forget_after_ms: 0, minutes, latency: 20, per_contact_latency: vec![l0, l1], unreachable_when_silent: false, rng_seed: seed });
+                    out.push(Cfg { contacts: vec![Contact { leaf: false, silent_at: s0, hearsay: false }, Contact { leaf: false, silent_at: s1, hearsay: false }], well_connected, search_every_ms: None, forget_after_ms: 0, minutes, latency: 20, per_contact_latency: vec![l0, l1], unreachable_when_silent: false, announce_burst_at: None, rng_seed: seed });
                 }
+            }
+        }
+    }
+    // two overlapping announcing searches, then nothing: responsive contacts must survive the next 15-minute ageing
+    for well_connected in [false, true] {
+        for n in [1usize, 3] {
+            for t in [30_000u64, 600_000] {
+                let contacts: Vec<Contact> = (0..n).map(|_| Contact { leaf: false, silent_at: None, hearsay: false }).collect();
+                out.push(Cfg { contacts, well_connected, search_every_ms: None, forget_after_ms: 0, minutes, latency: 20, per_contact_latency: vec![], unreachable_when_silent: false, announce_burst_at: Some(t), rng_seed: seed });
             }
         }
     }
@@ -320,7 +341,7 @@ pub fn configs(tier: Tier, seed: u64) -> Vec<Cfg> {
     for well_connected in [false, true] {
         for t in [60_000u64, 840_000, 960_000] {
             for search in [None, Some(600_000u64)] {
-                out.push(Cfg { contacts: vec![Contact { leaf: false, silent_at: None, hearsay: false }, Contact { leaf: false, silent_at: Some(t), hearsay: false }], well_connected, search_every_ms: search, forget_after_ms: 0, minutes, latency: 20, per_contact_latency: vec![], unreachable_when_silent: true, rng_seed: seed });
+                out.push(Cfg { contacts: vec![Contact { leaf: false, silent_at: None, hearsay: false }, Contact { leaf: false, silent_at: Some(t), hearsay: false }], well_connected, search_every_ms: search, forget_after_ms: 0, minutes, latency: 20, per_contact_latency: vec![], unreachable_when_silent: true, announce_burst_at: None, rng_seed: seed });
             }
         }
     }
@@ -328,7 +349,7 @@ pub fn configs(tier: Tier, seed: u64) -> Vec<Cfg> {
         for k in 6..=8usize {
             for well_connected in [false, true] {
                 let contacts: Vec<Contact> = (0..k).map(|i| Contact { leaf: false, silent_at: if i % 3 == 1 { Some(960_000) } else { None }, hearsay: i % 4 == 3 }).collect();
-                out.push(Cfg { contacts, well_connected, search_every_ms: Some(600_000), forget_after_ms: 600_000, minutes, latency: 20, per_contact_latency: vec![], unreachable_when_silent: false, rng_seed: seed });
+                out.push(Cfg { contacts, well_connected, search_every_ms: Some(600_000), forget_after_ms: 600_000, minutes, latency: 20, per_contact_latency: vec![], unreachable_when_silent: false, announce_burst_at: None, rng_seed: seed });
             }
         }
     }
